@@ -129,10 +129,10 @@ Definition dml_save (persisted has_counter : bool) (cols : list colst) : list cq
 (* DMLQuery.delete *)
 Definition dml_delete (cols : list colst) : list cql := [CDelete [] (key_kvs cols false)].
 
-(* Model._set_persisted: changed managers take previous_value := deepcopy(value), explicit := False.  Values here are immutable terms,
+(* Model._set_persisted: changed or deleted managers take previous_value := deepcopy(value), explicit := False.  Values here are immutable terms,
    so the snapshot is by value; nested (frozen) collections are atoms of the outer collection (the harness encodes them injectively). *)
 Definition set_persisted (cols : list colst) : list colst :=
-  map (fun c => if vm_changed c
+  map (fun c => if vm_changed c || vm_deleted c      (* written, or deleted by the statement just issued *)
                 then {| c_name := c_name c; c_kind := c_kind c; c_part := c_part c; c_clust := c_clust c; c_static := c_static c;
                         c_val := c_val c; c_prev := c_val c; c_expl := false |}
                 else c) cols.
